@@ -247,5 +247,49 @@ theorem mem_scan {s : Store} {p : Bytes} {e : Bytes × Val} : e ∈ s.scan p ↔
 theorem has_iff (s : Store) (k : Bytes) : s.has k = true ↔ ∃ v, s.get k = some v := by
   simp [has, Option.isSome_iff_exists]
 
+/-- two sorted stores that answer every lookup alike are the same list. -/
+theorem ext_of_get {s1 s2 : Store} (h1 : s1.WF) (h2 : s2.WF) (h : ∀ k, s1.get k = s2.get k) : s1 = s2 := by
+  induction s1 generalizing s2 with
+  | nil =>
+    cases s2 with
+    | nil => rfl
+    | cons p r => obtain ⟨k, v⟩ := p; have := h k; simp [get] at this
+  | cons p1 r1 ih =>
+    obtain ⟨k1, v1⟩ := p1
+    cases s2 with
+    | nil => have := h k1; simp [get] at this
+    | cons p2 r2 =>
+      obtain ⟨k2, v2⟩ := p2
+      obtain ⟨a1, b1⟩ := h1
+      obtain ⟨a2, b2⟩ := h2
+      have hk : k1 = k2 := by
+        rcases blt_trichotomy k1 k2 with t | t | t
+        · exfalso
+          have hn : get ((k2, v2) :: r2) k1 = none := by
+            apply get_none_of_lt
+            intro e he
+            rcases List.mem_cons.mp he with rfl | he
+            · exact t
+            · exact blt_trans t (a2 e he)
+          have := h k1; rw [hn] at this; simp [get] at this
+        · exact t
+        · exfalso
+          have hn : get ((k1, v1) :: r1) k2 = none := by
+            apply get_none_of_lt
+            intro e he
+            rcases List.mem_cons.mp he with rfl | he
+            · exact t
+            · exact blt_trans t (a1 e he)
+          have := h k2; rw [hn] at this; simp [get] at this
+      subst hk
+      have hv : v1 = v2 := by have := h k1; simpa [get] using this
+      subst hv
+      congr 1
+      apply ih b1 b2
+      intro k
+      by_cases e : k = k1
+      · subst e; rw [get_none_of_lt r1 k a1, get_none_of_lt r2 k a2]
+      · have := h k; simpa [get, e] using this
+
 end Store
 end Cctp
